@@ -229,7 +229,7 @@ func runC06(tier string) int {
 	r.Assume("names are <owner>_Text_<n> / <owner>_Movement_<n>, n counting the owner's new contents in source order of first appearance; content of a moves() is its written, expanded step list",
 		"identical content = identical text after terminator and format() processing and identical string type")
 	return r.Finish(r.Get("evaluations"), r.Get("nontrivial"),
-		"every file with N inline arguments distributed over 3 owners (two scripts and an inline map script, <= 3 each) x every assignment of 25 datum kinds (contents ending in terminator characters, plain / already-terminated / formatted / other text, ascii, braille and custom types incl. typed texts whose final literal equals a plain one, one literal under six format() parameter sets of which two give the same result, 9 moves() spellings incl. lists that differ only in the length of their last run or whose run-length spelling collides with another step name) x context rotations over 13 contexts (statement, if, while, switch case, AutoVar condition, selected poryswitch case, '_' case after an unselected one, do-while condition, AutoVar leaf in a parenthesised / negated group followed by an operator, elif condition, AutoVar switch operand, second of two inline data in one command) x {no user name, a user text, a user movement named like a generated label of the first script or of the inline map script, before or after the scripts (rotating)}, every file defining constants named like the text contents and movement steps; plus long files with K pairwise different inline arguments for every K up to the bound in the coverage (5 text/movement patterns x 3 owner splits x 2 context rotations); non-trivial = some content is shared between two arguments")
+		"every file with N inline arguments distributed over 3 owners (two scripts and an inline map script, <= 3 each; in odd rotations the map script's first argument sits in a table entry written before the plain inline script) x every assignment of 25 datum kinds (contents ending in terminator characters, plain / already-terminated / formatted / other text, ascii, braille and custom types incl. typed texts whose final literal equals a plain one, one literal under six format() parameter sets of which two give the same result, 9 moves() spellings incl. lists that differ only in the length of their last run or whose run-length spelling collides with another step name) x context rotations over 13 contexts (statement, if, while, switch case, AutoVar condition, selected poryswitch case, '_' case after an unselected one, do-while condition, AutoVar leaf in a parenthesised / negated group followed by an operator, elif condition, AutoVar switch operand, second of two inline data in one command) x {no user name, a user text, a user movement named like a generated label of the first script or of the inline map script, before or after the scripts (rotating)}, every file defining constants named like the text contents and movement steps; plus long files with K pairwise different inline arguments for every K up to the bound in the coverage (5 text/movement patterns x 3 owner splits x 2 context rotations); non-trivial = some content is shared between two arguments")
 }
 
 func c06Eval(r *harness.Run, data []datum, dist []int, rot, clash int) {
@@ -262,7 +262,16 @@ func c06Eval(r *harness.Run, data []datum, dist []int, rot, clash int) {
 			if n == 0 {
 				continue
 			}
-			sb.WriteString("mapscripts Map {\n\tON_LOAD {\n" + body.String() + "\t}\n}\n\n")
+			if n >= 2 && rot%2 == 1 {
+				// the first argument of the map script goes into a table entry written BEFORE the plain inline script
+				// (hoisted data is named and shared in source order, whatever order the scripts are emitted in)
+				first := c06Stmt(slots[len(slots)-n].cmd, slots[len(slots)-n].d.src, slots[len(slots)-n].ctx)
+				rest := strings.TrimPrefix(body.String(), first)
+				slots[len(slots)-n].owner = "Map_ON_FRAME_0"
+				sb.WriteString("mapscripts Map {\n\tON_FRAME [\n\t\tVAR_T, 0 {\n" + first + "\t\t}\n\t]\n\tON_LOAD {\n" + rest + "\t}\n}\n\n")
+			} else {
+				sb.WriteString("mapscripts Map {\n\tON_LOAD {\n" + body.String() + "\t}\n}\n\n")
+			}
 		} else {
 			sb.WriteString("script " + owner + " {\n" + body.String() + "}\n\n")
 		}
@@ -344,11 +353,12 @@ func c06Eval(r *harness.Run, data []datum, dist []int, rot, clash int) {
 	opts := comp.Opts{Optimize: true, Cmd: cc, Switches: map[string]string{"PV": "SEL"}}
 	if c04Tap != nil {
 		if !expectError {
-			data := map[string]bool{"Map": true}
+			data := map[string]bool{"Map": true, "Map_ON_FRAME": true}
 			if userName != "" {
 				data[userName] = true
 			}
-			c04Tap(&fileProgram{Desc: fmt.Sprintf("C06 file dist=%v rot=%d clash=%d", dist, rot, clash), Src: src, Opts: opts, Owners: c06Owners, UserLabels: map[string]bool{}, DataLabels: data, External: map[string]bool{}})
+			owners := append(append([]string{}, c06Owners...), "Map_ON_FRAME_0")
+			c04Tap(&fileProgram{Desc: fmt.Sprintf("C06 file dist=%v rot=%d clash=%d", dist, rot, clash), Src: src, Opts: opts, Owners: owners, UserLabels: map[string]bool{}, DataLabels: data, External: map[string]bool{}})
 		}
 		return
 	}
